@@ -180,7 +180,7 @@ def extra(ctx, res):
                 continue
             res["cases"] += 1
             res["nontrivial"] += 1
-            a = leaves([e for e in v._errors if tuple(e.document_path)[:2] == ('f', j)], 2)
+            a = sorted([(p[2:], c) for p, c in leaves([e for e in v._errors if tuple(e.document_path)[:1] == ('f',)], 0) if p[:2] == ('f', j)], key=repr)
             b = leaves(alone._errors, 0)
             d = None
             if v.document['f'][j] != alone.document:
